@@ -349,6 +349,17 @@ theorem exid_resolves_across_tables (T : List Actor) (ctr : Nat) (a : Actor) (hi
   obtain ⟨o, ho⟩ := hres
   exact ⟨_, o, hrt, ho, exidToOpid_sound T ctr a hint o ho⟩
 
+/-- "the actor-index hint [is] ignored when it does not match" — and when it does match it names the
+    same index the search finds: on the duplicate-free actor table of a document, resolution does not
+    depend on the hint at all. -/
+theorem exid_hint_irrelevant (T : List Actor) (hnd : T.Nodup) (ctr : Nat) (a : Actor)
+    (hint₁ hint₂ : Nat) : exidToOpid T (.id ctr a hint₁) = exidToOpid T (.id ctr a hint₂) := by
+  rw [exidToOpid_eq_lookup T hnd, exidToOpid_eq_lookup T hnd]
+
+example : exidToOpid [[0x10], [0x20], [0xab, 0x00]] (.id 5 [0x20] 1)
+    = exidToOpid [[0x10], [0x20], [0xab, 0x00]] (.id 5 [0x20] 77) ∧
+    exidToOpid [[0x10], [0x20], [0xab, 0x00]] (.id 5 [0x20] 77) = .ok ⟨5, 1⟩ := by decide
+
 /-- consequence for two replicas: the same bytes name the same (counter, actor) in both, although
     the internal actor indexes may differ -/
 theorem exid_same_op_in_two_replicas (T₁ T₂ : List Actor) (ctr : Nat) (a : Actor) (hint : Nat)
